@@ -4,7 +4,7 @@
 (* through Session.tla and rejects a second, different observation for one *)
 (* abstract state.                                                         *)
 (* Event: [cmd, i, v, p, d, out, proc]  with cmd in start / newgame /      *)
-(* setoption / position / go.                                              *)
+(* setoption / position / go / analyse (go infinite .. stop) / idlestop.    *)
 (***************************************************************************)
 EXTENDS Session, Json, IOUtils, Reporting
 
@@ -28,6 +28,8 @@ Step ==
              [] e.cmd = "newgame" -> NewGame /\ UNCHANGED seen
              [] e.cmd = "setoption" -> SetOption(e.i, e.v) /\ UNCHANGED seen
              [] e.cmd = "position" -> Position(e.p) /\ UNCHANGED seen
+             [] e.cmd = "analyse" -> Analyse(e.p) /\ UNCHANGED seen
+             [] e.cmd = "idlestop" -> IdleStop /\ UNCHANGED seen
              [] e.cmd = "go" ->
                    /\ Go(e.d)
                    /\ LET k == <<opts, Append(hist, <<cur, e.d>>)>>
